@@ -7,6 +7,7 @@
 // jobs run alone in a sequential pre-pass; one "Thread" record per thread and execution.  Under TSan the same stress exposes data races inside draco::.
 #include <atomic>
 #include <condition_variable>
+#include <map>
 #include <mutex>
 #include <thread>
 #include <sys/wait.h>
@@ -14,11 +15,47 @@
 #include "geom.h"
 #include "draco/metadata/geometry_metadata.h"
 #include "draco/core/verif_hooks.h"
+#include "draco/io/file_reader_factory.h"
+#include "draco/io/file_reader_interface.h"
+#include "draco/io/file_utils.h"
 using namespace draco;
 using namespace vg;
 static vrt::Out out;
 
 struct Job { Geom g; Opt o; };
+
+// Two in-memory "file systems" plugged into the process-wide reader registry (FileReaderFactory::RegisterReader, public): names "mem:a:<k>" and
+// "mem:b:<k>".  Every job stores its stream under a fresh name and reads it back through draco::ReadFileToBuffer: what one thread opens is no
+// business of another's.
+static std::mutex g_store_mu;
+static std::map<std::string, std::vector<char>> g_store;
+static std::atomic<long> g_store_seq(0);
+template <char TAG>
+class MemReader : public FileReaderInterface {
+ public:
+  static std::unique_ptr<FileReaderInterface> Open(const std::string &name) {
+    const std::string prefix = std::string("mem:") + TAG + ":";
+    if (name.compare(0, prefix.size(), prefix) != 0) return nullptr;
+    std::lock_guard<std::mutex> lk(g_store_mu);
+    auto it = g_store.find(name);
+    if (it == g_store.end()) return nullptr;
+    std::unique_ptr<MemReader> r(new MemReader());
+    r->data_ = it->second;
+    return std::unique_ptr<FileReaderInterface>(r.release());
+  }
+  bool ReadFileToBuffer(std::vector<char> *b) override { b->assign(data_.begin(), data_.end()); return true; }
+  bool ReadFileToBuffer(std::vector<uint8_t> *b) override { b->assign(data_.begin(), data_.end()); return true; }
+  size_t GetFileSize() override { return data_.size(); }
+ private:
+  std::vector<char> data_;
+};
+static void register_readers() {
+  static bool done = false;
+  if (done) return;
+  done = true;
+  FileReaderFactory::RegisterReader(MemReader<'a'>::Open);
+  FileReaderFactory::RegisterReader(MemReader<'b'>::Open);
+}
 static std::vector<int> limbs(uint64_t h) { return {(int)((h >> 48) & 0xFFFF), (int)((h >> 32) & 0xFFFF), (int)((h >> 16) & 0xFFFF), (int)(h & 0xFFFF)}; }
 
 static std::vector<int> run_job(const Job &j) {
@@ -28,6 +65,15 @@ static std::vector<int> run_job(const Job &j) {
   for (int x : limbs(hb)) res.push_back(x);
   res.push_back(e.ok ? 1 : 0);
   res.push_back(e.ok ? (int)(e.reported_points & 0xFFFFFF) : 0);     // what a failed encode leaves in the counters is not a result
+  {  // the stream through the reader registry: stored under a fresh name in one of the two in-memory file systems, read back whole
+    const long k = g_store_seq.fetch_add(1);
+    const std::string name = std::string(hb & 1 ? "mem:a:" : "mem:b:") + std::to_string(k);
+    { std::lock_guard<std::mutex> lk(g_store_mu); g_store[name] = e.bytes; }
+    std::vector<char> back;
+    const bool rok = ReadFileToBuffer(name, &back);
+    res.push_back(rok && back == e.bytes ? 1 : 0);
+    { std::lock_guard<std::mutex> lk(g_store_mu); g_store.erase(name); }
+  }
   if (e.ok) {
     Decoded d = decode(e.bytes.data(), e.bytes.size());
     for (int x : limbs(d.ok ? geom_digest(*d.pc, d.is_mesh) : 7)) res.push_back(x);
@@ -261,6 +307,7 @@ static int run_events(uint64_t seed, long n) {
 
 int main(int argc, char **argv) {
   if (getenv("VERIF_RECORDS")) { out.f = fopen(getenv("VERIF_RECORDS"), "w"); if (!out.f) return 2; }
+  register_readers();
   if (argc >= 4 && !strcmp(argv[1], "sched")) return run_sched(argv[2], strtoull(argv[3], 0, 10));
   if (argc >= 4 && !strcmp(argv[1], "events")) return run_events(strtoull(argv[2], 0, 10), atol(argv[3]));
   if (argc >= 5 && !strcmp(argv[1], "stress")) return run_stress(atoi(argv[2]), atoi(argv[3]), strtoull(argv[4], 0, 10));
